@@ -439,6 +439,9 @@ func (x *exec) observe(step int, cnt map[tw]map[tw]tally, prevElig map[[2]tw]boo
 			st["report_on_closed_conn"]++
 		case why != "":
 			st["report_rejected/"+why]++
+			if ev.Obs.Zone != "" && ev.Obs.TW.IP.Is6() {
+				st["report_rejected/"+why+"-spelled-with-an-ip6zone"]++
+			}
 			if last != nil {
 				st["report_rejected_after_counted_one"]++
 			}
@@ -660,7 +663,7 @@ func TestC17(t *testing.T) {
 		"report_counted", "report_changed", "report_repeated", "report_on_closed_conn", "report_rejected_after_counted_one",
 		"report_rejected/loopback", "report_rejected/nat64", "report_rejected/relay-observed", "report_counted_on_relayed_conn",
 		"report_rejected/wrong-l4", "report_rejected/wrong-ip-version", "report_rejected/not-a-listen-address",
-		"report_rejected/not-a-transport-address", "report_counted_private_observed", "report_counted_own_local_address",
+		"report_rejected/not-a-transport-address", "report_rejected/nat64-spelled-with-an-ip6zone", "report_counted_private_observed", "report_counted_own_local_address",
 		"histories_thresh_1", "histories_thresh_2", "histories_thresh_4", "histories_more_than_3_eligible_thresh_4",
 		"histories_ipv6_same_56_two_conns", "addrsfor_asked_for_non_listen_conn_local",
 	} {
@@ -668,6 +671,7 @@ func TestC17(t *testing.T) {
 			r.Require(k, 20)
 		}
 	}
+	listenerGone(r)
 	wiring(r)
 	if os.Getenv("VERIF_RACE") != "1" && r.Counter("wiring_skipped_cannot_listen_on_distinct_loopback_ips")+r.Counter("wiring_skipped_observers_do_not_have_distinct_ips") == 0 && !r.Replaying() {
 		r.Require("wiring_activated_by_real_identify", 1)
